@@ -273,6 +273,31 @@ async fn exec_async(inp: &[u128]) -> (Vec<u128>, String, String) {
         oracle = format!("FAIL: {harness_err}");
     }
 
+    // The distributor handle (the list's subscription API that can be cloned and given away) outlives the list: a
+    // subscription made through it after the list was marked done and its handle dropped still gets every item, then Done.
+    if oracle.is_empty() {
+        let dist = obs.distributor();
+        let was_done = obs.is_done();
+        if !was_done {
+            obs.done();
+        }
+        let expect: Vec<u64> = coll.clone();
+        drop(obs);
+        barrier().await;
+        let late = dist.subscribe();
+        let m = late.mirror(1_000_000);
+        barrier().await;
+        barrier().await;
+        match m.borrow().await {
+            Ok(r) => {
+                if *r != expect || !r.is_done() {
+                    oracle = format!("FAIL: a subscription made through the distributor after the list was done and dropped holds {:?} done={} but the list was {:?}", r.clone(), r.is_done(), expect);
+                }
+            }
+            Err(e) => oracle = format!("FAIL: a subscription made through the distributor after the list was done and dropped failed with error class {} (list {:?})", err_code(&e), expect),
+        };
+    }
+
     let subkind = if s.done_at {
         "afterdone"
     } else if k == 0 {
